@@ -78,8 +78,8 @@ def cache_put(name, key, val):
 
 
 PLAN = {
-    "quick": [("equilibrium", 14), ("mixed", 12), ("rebuild", 8), ("rebuild_finish", 14), ("recover", 6), ("shortage", 8), ("aftermath", 6), ("exhaust", 8), ("nonreal", 6), ("overkill", 8)],
-    "thorough": [("equilibrium", 60), ("mixed", 90), ("rebuild", 60), ("rebuild_finish", 60), ("recover", 40), ("shortage", 60), ("aftermath", 40), ("exhaust", 60), ("nonreal", 40), ("overkill", 40)],
+    "quick": [("equilibrium", 14), ("mixed", 12), ("rebuild", 8), ("rebuild_finish", 14), ("recover", 6), ("shortage", 8), ("aftermath", 6), ("exhaust", 8), ("nonreal", 6), ("overkill", 8), ("fast_rebuild", 6)],
+    "thorough": [("equilibrium", 60), ("mixed", 90), ("rebuild", 60), ("rebuild_finish", 60), ("recover", 40), ("shortage", 60), ("aftermath", 40), ("exhaust", 60), ("nonreal", 40), ("overkill", 40), ("fast_rebuild", 30)],
 }
 MAX_STEPS_CHECKED = {"quick": 6, "thorough": 10}
 
@@ -145,7 +145,7 @@ def pick_steps(trace, kmax, rng):
 def _worker(args):
     scn, kmax, idx = args
     sys.path.insert(0, ROOT)
-    from harness import cases, drive, evcases, initcases
+    from harness import cases, createcases, drive, evcases, initcases
     trace = drive.run(scn)
     cf = cases.CaseFile()
     info = {"steps_checked": []}
@@ -162,6 +162,7 @@ def _worker(args):
             evcases.event_checks(cf, P, trace, st, scn["id"])
             info["steps_checked"].append(st["t"])
         evcases.register_checks(cf, P, trace, scn["id"])
+        createcases.create_tracker_checks(cf, P, trace, scn["id"])
     return idx, trace, cf, info
 
 
